@@ -101,6 +101,54 @@ def parseListenersM (E : ListenEnv) : List Map → Except LErr (List LListen)
       | .error e => .error e
       | .ok ls => .ok (l :: ls)
 
+/-! ### the listener rules inside `load` -/
+
+/-- what the external parsers answer (everything of `ListenEnv` except the certificate-source names, which
+`load` computes from `proxy.cs`) -/
+structure ListenExt where
+  addrOf : Str → Option Str
+  fieldOK : Str → Str → Bool
+
+/-- `cs[src.Name] = src` in `parseCertSources`: the names defined by `proxy.cs` -/
+def csNamesOf (unq : Str → Option Str) (raw : Str) : List Str :=
+  match parseKVSlice unq raw with
+  | .ok (.ok ms) => ms.filterMap (fun m => m.get "cs".toList)
+  | _ => []
+
+def listenEnvOf (unq : Str → Option Str) (X : ListenExt) (vals : List Resolved) : ListenEnv :=
+  { addrOf := X.addrOf, fieldOK := X.fieldOK, csNames := csNamesOf unq (rawOf vals "proxy.cs".toList) }
+
+/-- `cfg.UI.Listen` (`none`: `ui.addr` is empty, the zero `Listen` stays) and `cfg.Listen`, as `load` computes
+them from the resolved values; the kvslice texts have been parsed once already by `validate` (a text that does
+not parse never gets here), `ui.addr` must hold exactly one entry. -/
+def listenersOf (unq : Str → Option Str) (X : ListenExt) (vals : List Resolved) :
+    Except LErr (List LListen × Option LListen) :=
+  let E := listenEnvOf unq X vals
+  let uiRaw := rawOf vals "ui.addr".toList
+  let ui : Except LErr (Option LListen) :=
+    if uiRaw = [] then .ok none
+    else match parseKVSlice unq uiRaw with
+      | .ok (.ok [m]) => (parseListenM E m).map some
+      | _ => .error .needAddr
+  match ui with
+  | .error e => .error e
+  | .ok u =>
+    match parseKVSlice unq (rawOf vals "proxy.addr".toList) with
+    | .ok (.ok ms) =>
+      match parseListenersM E ms with
+      | .error e => .error e
+      | .ok ls => .ok (ls, u)
+    | _ => .error .needAddr
+
+/-- the listener rules as part of `validate`'s parameter `extra`: a listener `parseListen` rejects makes `load`
+return an error; everything `load` checks beyond that stays the abstract `rest` -/
+def listenExtra (unq : Str → Option Str) (X : ListenExt) (rest : List Resolved → Option Err) :
+    List Resolved → Option Err :=
+  fun vals =>
+    match listenersOf unq X vals with
+    | .error _ => some (.other "listener".toList)
+    | .ok _ => rest vals
+
 /-- what `main.startServers` does with a listener: `none` = the `default:` branch (`exit.Fatal`) -/
 def startable (handled : List Str) (l : LListen) : Bool := handled.contains l.proto
 
